@@ -10,6 +10,9 @@ inductive ApiCall
   | start | stop | stopWithSignal (sig : Sig) (grace : Nat) | restart | restartWithSignal (sig : Sig) (grace : Nat)
   | tryRestart | tryRestartWithSignal (sig : Sig) (grace : Nat) | signal (sig : Sig)
   | toWait | delete | deleteNow | run (id : Nat) | setErrorHandler | unsetErrorHandler | setSpawnHook | unsetSpawnHook
+  /-- the async variants: the closure returns a future that the job task awaits before going on; the state change is the
+      one of the sync variant, so the model sends the same control -/
+  | runAsync (id : Nat) | setAsyncErrorHandler | setSpawnAsyncHook
   deriving Repr, DecidableEq
 
 /-- `Job::<method>` → (priority, controls in order) — the table the script drivers use -/
@@ -30,6 +33,13 @@ def apiOf : ApiCall → Prio × List Ctl
   | .unsetErrorHandler => (.normal, [.unsetErr])
   | .setSpawnHook => (.normal, [.setHook])
   | .unsetSpawnHook => (.normal, [.unsetHook])
+  | .runAsync id => (.normal, [.func id])
+  | .setAsyncErrorHandler => (.normal, [.setErr])
+  | .setSpawnAsyncHook => (.normal, [.setHook])
+
+def isAsync : ApiCall → Bool
+  | .runAsync _ | .setAsyncErrorHandler | .setSpawnAsyncHook => true
+  | _ => false
 
 def methodName : ApiCall → String
   | .start => "start" | .stop => "stop" | .stopWithSignal .. => "stop_with_signal" | .restart => "restart"
@@ -37,6 +47,7 @@ def methodName : ApiCall → String
   | .signal _ => "signal" | .toWait => "to_wait" | .delete => "delete" | .deleteNow => "delete_now" | .run _ => "run"
   | .setErrorHandler => "set_error_handler" | .unsetErrorHandler => "unset_error_handler"
   | .setSpawnHook => "set_spawn_hook" | .unsetSpawnHook => "unset_spawn_hook"
+  | .runAsync _ => "run_async" | .setAsyncErrorHandler => "set_async_error_handler" | .setSpawnAsyncHook => "set_spawn_async_hook"
 
 /-- name of the Rust `Control` variant a model control stands for -/
 def ctlName : Ctl → String
@@ -44,6 +55,10 @@ def ctlName : Ctl → String
   | .tryGracefulRestart .. => "TryGracefulRestart" | .continueTGR => "ContinueTryGracefulRestart" | .signal _ => "Signal"
   | .delete => "Delete" | .nextEnding => "NextEnding" | .func _ => "SyncFunc"
   | .setHook => "SetSyncSpawnHook" | .unsetHook => "UnsetSpawnHook" | .setErr => "SetSyncErrorHandler" | .unsetErr => "UnsetErrorHandler"
+
+/-- the `Control` variant the ASYNC API methods send for it -/
+def asyncName : Ctl → String
+  | .func _ => "AsyncFunc" | .setHook => "SetAsyncSpawnHook" | .setErr => "SetAsyncErrorHandler" | c => ctlName c
 
 def prioName : Prio → String | .normal => "Normal" | .high => "High" | .urgent => "Urgent"
 
